@@ -392,8 +392,9 @@ def data_cases(g, thorough, count):
         out.append("\n".join(dlines) + "\nstart:\n" + uses + "hlt\n")
     return out
 
-def errors(g, thorough, count):
-    """valid program x one semantic mutation"""
+def errors_x(g, thorough, count):
+    """valid program x one semantic mutation, with the verdict the property demands where it is known by construction:
+    (source, "!refused" | "!accepted" | None)"""
     r = g.rng
     base = "v: db 5\nw: dw 7\ndef f {\ninc bx\n}\nstart:\nmov ax, 1\nadd ax, word w\njnz lab\ncall f\nlab:\nhlt\n"
     muts = [
@@ -418,31 +419,59 @@ def errors(g, thorough, count):
         ("jnz lab", "jnz f"), ("jnz lab", "jmp f"), ("jnz lab", "mov cx, 2\nloop f"), ("jnz lab", "mov cx, 0\njcxz f"), ("jnz lab", "JMP f"),
         ("call f", "call f\njmp late"), ("call f", "call start"), ("call f", "call v"),
     ]
-    out = [base]
+    out = [(base, "!accepted")]
     for a, b in muts:
-        out.append(base.replace(a, b, 1))
-    out.append(base.replace("call f", "jmp late", 1) + "def late {\ninc dx\n}\n")
+        out.append((base.replace(a, b, 1), "!refused"))
+    out.append((base.replace("call f", "jmp late", 1) + "def late {\ninc dx\n}\n", "!refused"))
     # OFFSET of a label used as a byte constant, the label lying at 255 / 256 / 257
     for pad in (254, 255, 256, 257, 65535):
         for use in ("mov al, offset v", "shl ax, offset v", "mov byte [bx], offset v", "int offset v", "and al, offset v", "db offset v"):
             c = base.replace("v: db 5", "pad: db [%d]\nv: db 5" % pad, 1)
-            out.append(c.replace("w: dw 7", "w: dw 7\n" + use, 1) if use.startswith("db") else c.replace("mov ax, 1", use, 1))
+            verdict = None if use.startswith("int") else ("!accepted" if pad <= 255 else "!refused")
+            out.append((c.replace("w: dw 7", "w: dw 7\n" + use, 1) if use.startswith("db") else c.replace("mov ax, 1", use, 1), verdict))
     # an error that arises inside a macro expansion (the diagnostic belongs to the use, not to a place in the expanded text)
-    mlib = "macro addn(a,b) -> add a, b <-\nmacro twice(r) -> addn(r, r) addn(r, bl) <-\nmacro setb(q) -> mov al, q <-\nmacro jj(l) -> jmp l <-\n"
-    for use in ("addn(ax, bl)", "setb(300)", "twice(cx)", "addn(ax)", "setb(word [bx])", "inc cx\n  addn(al, word w)", "jj(nolabel)", "jj(v)",
-                "jj(aa)\njj(bb)\njj(cc)\njj(dd)\njj(ee)\njj(ff)", "jj(zz)\njj(yy)\njj(xx)\njmp ww\njj(vv)",
-                "six(u1,u2,u3,u4,u5,u6)", "six(k6,k5,k4,k3,k2,k1)", "six(lab,q2,lab,q1,start,q0)", "six(m3,m1,m2,m1,m3,m2)\nsix(n1,n2,n3,n4,n5,n6)"):
+    mlib = "macro addn(a,b) -> add a, b <-\nmacro twice(r) -> addn(r, r) addn(r, bl) <-\nmacro setb(q) -> mov al, q <-\nmacro ldw(q) -> mov ax, q <-\nmacro jj(l) -> jmp l <-\n"
+    for use, verdict in (("addn(ax, bl)", "!refused"), ("setb(300)", "!refused"), ("twice(cx)", "!refused"), ("addn(ax)", "!refused"), ("setb(word [bx])", "!refused"),
+                ("inc cx\n  addn(al, word w)", "!refused"), ("jj(nolabel)", "!refused"), ("jj(v)", "!refused"),
+                ("jj(aa)\njj(bb)\njj(cc)\njj(dd)\njj(ee)\njj(ff)", "!refused"), ("jj(zz)\njj(yy)\njj(xx)\njmp ww\njj(vv)", "!refused"),
+                ("six(u1,u2,u3,u4,u5,u6)", "!refused"), ("six(k6,k5,k4,k3,k2,k1)", "!refused"), ("six(lab,q2,lab,q1,start,q0)", "!refused"),
+                ("six(m3,m1,m2,m1,m3,m2)\nsix(n1,n2,n3,n4,n5,n6)", "!refused"),
+                ("setb(word w)", "!refused"), ("setb(WORD w)", "!refused"), ("ldw(word w)", "!accepted"), ("ldw(WORD w)", "!accepted"), ("ldw(byte v)", "!refused"),
+                ("setb(byte v)", "!accepted"), ("setb(byte [bx])", "!accepted"), ("ldw(word [bx,si])", "!accepted"), ("ldw(byte [bx])", "!refused"),
+                ("addn(ax, word w)", "!accepted"), ("addn(al, byte v)", "!accepted"), ("addn(ax, byte v)", "!refused"), ("setb(255)", "!accepted"), ("setb(256)", "!refused")):
         wl = base.replace("w: dw 7\n", "w: dw 7\n" + mlib + "macro six(a,b,c,d,e,g) -> jmp a jz b jc c loop d jmp e jnz g <-\n", 1)
-        out.append(wl.replace("mov ax, 1", "mov ax, 1\n" + use, 1))
-        out.append(wl.replace("inc bx", "inc bx\n" + use, 1))
+        out.append((wl.replace("mov ax, 1", "mov ax, 1\n" + use, 1), verdict))
+        out.append((wl.replace("inc bx", "inc bx\n" + use, 1), verdict))
     for a, n_ in [(1048575, 0), (1048575, 1), (0xFFFF0, 15), (0xFFFF0, 16), (0, 1048575), (0, 1048576)]:
-        out.append(base.replace("mov ax, 1", "print mem %d : %d" % (a, n_), 1))
+        out.append((base.replace("mov ax, 1", "print mem %d : %d" % (a, n_), 1), None))
     # boundary values of the constant ranges (accepted / rejected by one)
     for ins, lo, hi in [("mov al, %d", -128, 255), ("mov ax, %d", -32768, 65535), ("shl ax, %d", 0, 255), ("and al, %d", 0, 255), ("or ax, %d", 0, 65535),
                         ("int %d", 3, 3), ("mov byte [bx], %d", -128, 255), ("add word [bx,si,%d], 1", -32768, 65535), ("mov ax, word [%d]", 0, 65535)]:
         for v in (lo - 1, lo, hi, hi + 1):
-            out.append(base.replace("mov ax, 1", ins % v, 1))
+            out.append((base.replace("mov ax, 1", ins % v, 1), "!accepted" if lo <= v <= hi else "!refused"))
+    # the same for every instruction family x every byte / word destination form (ranges as documented: arithmetic and mov take
+    # signed or unsigned constants of the operand's width, logical instructions unsigned ones)
+    for op, signed in [("mov", True), ("add", True), ("adc", True), ("sub", True), ("sbb", True), ("cmp", True),
+                       ("and", False), ("or", False), ("xor", False), ("test", False)]:
+        for dest, bits in [("byte v", 8), ("byte [bx]", 8), ("byte [bx,si,2]", 8), ("al", 8), ("dh", 8), ("word w", 16), ("word [bx]", 16), ("word es[di,4]", 16), ("ax", 16), ("si", 16)]:
+            lo = -(2 ** (bits - 1)) if signed else 0
+            hi = 2 ** bits - 1
+            for v in (lo - 1, lo, hi, hi + 1):
+                out.append((base.replace("mov ax, 1", "%s %s, %d" % (op, dest, v), 1), "!accepted" if lo <= v <= hi else "!refused"))
+    # fill values and counts of arrays
+    for d, lo, hi in (("db", -128, 255), ("dw", -32768, 65535)):
+        for v in (lo - 1, lo, hi, hi + 1):
+            out.append((base.replace("v: db 5", "v: %s [%d , 2]" % (d, v), 1), "!accepted" if lo <= v <= hi else "!refused"))
+            out.append((base.replace("v: db 5", "v: %s %d" % (d, v), 1), "!accepted" if lo <= v <= hi else "!refused"))
+    for d, mx in (("db", 65535), ("dw", 32767)):
+        out.append(("x: %s [%d]\nstart:\nhlt\n" % (d, mx), "!accepted"))           # exactly fills the segment
+        out.append(("x: %s [%d]\nstart:\nhlt\n" % (d, mx + 1), "!refused"))
+        out.append(("x: %s [%d]\ny: dw 1\nstart:\nhlt\n" % (d, mx), "!refused"))   # one / two bytes too many
+        out.append(("x: %s [65536]\nstart:\nhlt\n" % d, "!refused"))
     return out
+
+def errors(g, thorough, count):
+    return [c for c, _ in errors_x(g, thorough, count)]
 
 def macros(g, thorough, count):
     r = g.rng
@@ -550,7 +579,7 @@ def macroref(g, thorough, count):
             params = r.sample(["a", "ab", "abc", "b", "x", "ax1", "p", "pp", "m", "r", "r_hi", "p_", "_p", "a_1", "x_", "q"], np_)
             toks = []
             for _k in range(r.randrange(1, 4)):
-                form = r.randrange(8)
+                form = r.randrange(9)
                 pa = r.choice(params) if params else "ax"
                 pb = r.choice(params) if params else "1"
                 if form == 0:
@@ -567,6 +596,8 @@ def macroref(g, thorough, count):
                     toks.append(f"cmp {pa}, {pb}")
                 elif form == 6 and params:
                     toks.append(f"inc {params[-1]}")                # a later parameter used, earlier ones perhaps not
+                elif form == 7 and params:
+                    toks.append(f"push {pa} pop {pa}")
                 else:
                     toks.append(f"xchg {r.choice([pa, 'ax'])},{r.choice(['bx', 'dx'])}")
                 if params and r.random() < 0.2:
@@ -581,7 +612,7 @@ def macroref(g, thorough, count):
         for _k in range(r.randrange(1, 4)):
             n = r.choice(names)
             pool = ["ax", "bx", "dx", "cx", "si", "7", "0x10", "word [bx,si,2]", "word wv", "di", "bp", "65520", "0xFFFF", "32768", "0x8000", "255", "256",
-                    "128", "0b1000000000000000", "40000", "byte [bx]", "offset wv", "word [0xFFF0]", "word es[bp,di,-2]"]
+                    "128", "0b1000000000000000", "40000", "byte [bx]", "offset wv", "word [0xFFF0]", "word es[bp,di,-2]", "SS", "ss", "ES", "DS", "ds", "AX", "BX", "SI", "WORD wv", "BYTE [bx]", "word WV" if False else "word wv"]
             args = [r.choice(pool) for _k2 in range(3)]
             if r.random() < 0.1:
                 args[r.randrange(3)] = r.choice(names)
@@ -769,6 +800,13 @@ def cli_cases(g, group, thorough):
                 cmds += ["print mem : 15", "print mem : 16", "print mem :17", "PRINT MEM : 0xF"]
             body = setup + f"mov ax, {seg}\nmov ds, ax\n" + "\n".join(r.sample(cmds, 4)) + "\nprint reg\n" + r.choice(cmds) + "\n"
             out.append(("-", "\n".join(dl) + "\nstart:\n" + body, ""))
+        # every case combination of the print statements, in the program and at the prompt
+        for pw in ("print", "PRINT"):
+            for what, exp_ in (("flags", "OF : "), ("FLAGS", "OF : "), ("reg", "AX : 0x1234"), ("REG", "AX : 0x1234"),
+                               ("mem 0x10 -> 0x12", "ws:-> 0x12 : 5A 00 00"), ("MEM 0x10 -> 0x12", "ws:-> 0x12 : 5A 00 00"),
+                               ("mem 0x10 : 2", "ws:: 2 : 5A 00 00"), ("MEM 0x10 : 2", "ws:: 2 : 5A 00 00"), ("mem : 0x10", "ws:5A"), ("MEM :0x10", "ws:5A")):
+                out.append(("-", f"start:\nmov ax, 0x1234\nmov byte [0x10], 0x5A\n{pw} {what}\n", "", exp_))
+                out.append(("i", "start:\nmov ax, 0x1234\nmov byte [0x10], 0x5A\nnop\n", f"n\nn\n{pw} {what.replace('0x10', '16').replace('0x12', '18')}\nn\n", exp_ if not exp_.startswith("ws:->") and not exp_.startswith("ws::") else "ws:5A 00 00"))
         # DS-relative ranges whose count does not fit 16 bits, and constants beyond 2^20, in every radix
         for seg in (0, 1, 0xF000, 0xFFFF):
             for cnt in ("65535", "65536", "0x10000", "70000", "0b10000000000000000", "0x100003", "1048575", "1048576", "0xFFFFF", "2097155"):
@@ -779,11 +817,12 @@ def cli_cases(g, group, thorough):
                 out.append(("-", f"x: db 7\nstart:\nmov ax, {seg}\nmov ds, ax\nmov byte [3], 0x5A\nprint mem : {cnt}\nprint reg\n", "") + (("5A",) if inside else ()))
                 out.append(("i", f"start:\nmov ax, {seg}\nmov ds, ax\nmov byte [3], 0x5A\nnop\n", f"n\nn\nn\nprint mem : {cnt}\nn\n") + (("5A",) if inside else ()))
     elif group == "diag":
-        base_cases = errors(g, thorough, 0)
-        for c in base_cases:
-            out.append(("-", c, ""))
-            out.append(("-", "; header comment\n\n" + c.rstrip("\n"), ""))       # shifted lines, no trailing newline
-            out.append(("-", r.choice(["\n", ";c\n", " \n"]) + c, ""))              # an empty first line: messages about line 2
+        base_cases = errors_x(g, thorough, 0)
+        for c, verdict in base_cases:
+            ex = (verdict,) if verdict else ()
+            out.append(("-", c, "") + ex)
+            out.append(("-", "; header comment\n\n" + c.rstrip("\n"), "") + ex)       # shifted lines, no trailing newline
+            out.append(("-", r.choice(["\n", ";c\n", " \n"]) + c, "") + ex)              # an empty first line: messages about line 2
         # single-token corruptions at every token position of a valid program
         valid = "v: db 5\nw: dw 7\nmacro m(a) -> inc a <-\ndef f {\ninc bx\n}\nstart:\nmov ax, 1\nm(cx)\nadd ax, word w\njnz lab\ncall f\nlab:\nprint reg\nint 3\nhlt"
         toks = re.findall(r"\S+|\s+", valid)
@@ -851,7 +890,7 @@ def cli_cases(g, group, thorough):
         for _ in range(n(200, 2500)):
             img = {}
             seg, off = 0, 0
-            lines, labels, touched = [], [], []
+            lines, labels, touched, labels_seg = [], [], [], []
             def put(bs):
                 nonlocal off
                 for bt in bs:
@@ -867,6 +906,7 @@ def cli_cases(g, group, thorough):
                 if r.random() < 0.6:
                     lbl = "L%d" % k
                     labels.append((lbl, off))
+                    labels_seg.append((lbl, off, seg))
                     lbl += ": "
                 if (seg, off) not in touched:
                     touched.append((seg, off))
@@ -907,6 +947,11 @@ def cli_cases(g, group, thorough):
             for (lb, o) in labels[:2]:
                 body += ["mov bx, offset %s" % lb, "print reg"]
                 exps.append("BX : 0x%04X" % o)
+            for (lb, o, sg) in labels_seg[:2]:
+                a0 = (sg * 16 + o) % 1048576
+                wv = img.get(a0, 0) + 256 * img.get((a0 + 1) % 1048576, 0)
+                body += ["mov ax, %d" % sg, "mov ds, ax", "mov cx, word %s" % lb, "mov dl, byte %s" % lb, "print reg"]
+                exps.append("CX : 0x%04X" % wv)
             src = "\n".join(lines + body) + "\n"
             out.append(("-", src, "") + tuple(exps))
     elif group == "strings":
@@ -1018,9 +1063,9 @@ def role_cases(g, thorough):
     for alt in alts:
         fams = [None] * reps
         for i, sy in enumerate(alt.symbols):
-            if sy.kind == "nt" and not sy.suffix and sy.value.startswith("quote") and g.table(sy.value) is not None:
-                fams = [(i, f) for f in sorted(g.groups(sy.value).values())] + fams
-                break
+            if sy.kind == "nt" and not sy.suffix and g.table(sy.value) is not None:
+                # every spelling of every table the alternative uses, each on its own
+                fams = [(i, [w]) for f in sorted(g.groups(sy.value).values()) for w in f] + fams
         for fam in fams:
             g.atoms = []
             g.atom_vals = []
@@ -1035,7 +1080,7 @@ def role_cases(g, thorough):
             def plain(m):
                 alts_ = g.atoms[int(m.group(1))]
                 low = [a for a in alts_ if a == a.lower() and not a.startswith("0x") and not a.startswith("0b") and not a.startswith("offset")]
-                return (low or alts_)[0]
+                return (low or [alts_[0].lower()])[0]
             canon = re.sub("\x01(\\d+)\x02", plain, line)
             canon = re.sub("[\x03]", "", canon)
             canon = re.sub("[\x04]", " ", canon)
